@@ -343,6 +343,8 @@ const FAMILIES: &[(&str, &str, &str, &str)] = &[
     ("variant-map", "#[map(T)] #[try_map(T, Er)] #[map(U)] #[try_map(U, Er)] enum S { {MEMBER} A(i32), B }", "#[map({d}V{m})]", "V{m}"),
     ("variant-field-ghost", "#[map(T)] #[try_map(T, Er)] #[map(U)] #[try_map(U, Er)] enum S { A(i32, {MEMBER} i32), B }", "#[ghost({d}{ {m} })]", "{m}"),
     ("as_type", "#[map(T)] #[into_existing(T)] #[map(U)] #[into_existing(U)] struct S { {MEMBER} a: i32, b: i32 }", "#[o2o(as_type({d}Ty{m}))]", "Ty{m}"),
+    // the marker is the FORM of the counterpart variant: `A ( )` for the default hint, `A { }` for the one dedicated to T
+    ("variant-type_hint", "#[map(T)] #[try_map(T, Er)] #[map(U)] #[try_map(U, Er)] enum S { {MEMBER} A, B }", "#[type_hint({d}{h})]", "{hm}"),
 ];
 
 impl Space for Lookups {
@@ -356,6 +358,9 @@ impl Space for Lookups {
         if present.iter().filter(|x| **x).count() < 2 {
             return ctx.reject();
         }
+        if family == "variant-type_hint" && present[2] {
+            return ctx.reject(); // two distinguishable hint forms only: default and T
+        }
         let slots: Vec<(Option<&'static str>, usize)> = [(None, 1001usize), (Some("T"), 1002), (Some("U"), 1003)].iter().enumerate().filter(|(i, _)| present[*i]).map(|(_, x)| *x).collect();
         // every written order
         let perm = ctx.permutation(slots.len());
@@ -364,8 +369,9 @@ impl Space for Lookups {
         for i in perm {
             let (slot, m) = slots[i];
             let d = slot.map(|s| format!("{}| ", s)).unwrap_or_default();
-            text.push(tmpl.replace("{d}", &d).replace("{m}", &m.to_string()));
-            instrs.push((slot, mk.replace("{m}", &m.to_string())));
+            let (h, hm) = if slot.is_none() { ("as ()", "A ( )") } else { ("as {}", "A { }") };
+            text.push(tmpl.replace("{d}", &d).replace("{m}", &m.to_string()).replace("{h}", h));
+            instrs.push((slot, mk.replace("{m}", &m.to_string()).replace("{hm}", hm)));
         }
         let input = host.replace("{TYPE}", &text.join(" ")).replace("{MEMBER}", &text.join(" "));
         let mut tags = vec![format!("family={}", family)];
@@ -397,9 +403,9 @@ impl Space for Lookups {
             let mut problems = vec![];
             let mut seen_expected = false;
             for i in &mine {
-                let toks: Vec<&str> = i.text.split(' ').collect();
+                let padded = format!(" {} ", i.text);
                 for (_, m) in &c.instrs {
-                    let present = toks.iter().any(|t| t == m);
+                    let present = padded.contains(&format!(" {} ", m));
                     if Some(m) == expected {
                         seen_expected |= present;
                     } else if present {
